@@ -4,19 +4,20 @@
 # writes /verif/seeded/RESULTS.md. Never leaves /repo modified.
 import json, os, subprocess, sys
 V='/verif'
+REPO=os.environ.get('VERIF_REPO','/repo')
 rows=[]
 ids=sys.argv[1:] or sorted(d for d in os.listdir(V+'/seeded') if os.path.isdir(V+'/seeded/'+d))
 for sid in ids:
     prop=sid.split('-')[0]
     meta_p=f'{V}/seeded/{sid}/meta.json'
     meta=json.load(open(meta_p))
-    r=subprocess.run(['git','-C','/repo','apply',f'{V}/seeded/{sid}/patch.diff'],capture_output=True,text=True)
+    r=subprocess.run(['git','-C',REPO,'apply',f'{V}/seeded/{sid}/patch.diff'],capture_output=True,text=True)
     if r.returncode!=0:
         rows.append((sid,'APPLY-FAILED','',meta)); continue
     try:
         out=subprocess.run([V+'/bin/govc','check','--property',prop,'--tier','quick','--no-evidence'],capture_output=True,text=True)
     finally:
-        subprocess.run(['git','-C','/repo','checkout','--','.'])
+        subprocess.run(['git','-C',REPO,'checkout','--','.'])
     fails=[l[len('FAILED-OBLIGATION '):] for l in out.stdout.splitlines() if l.startswith('FAILED-OBLIGATION')]
     names=[f.split(' [')[0] for f in fails]
     det='; '.join(names[:4]) if out.returncode==1 and names else ''
